@@ -25,12 +25,23 @@ func NewCapLog(rec *Rec, on bool) *CapLog { return &CapLog{rec: rec, on: on} }
 
 func (l *CapLog) hits(s string) []string {
 	var h []string
+	seen := map[string]bool{}
 	for _, t := range l.Tokens {
-		if t != "" && strings.Contains(s, t) {
+		if t != "" && !seen[t] && strings.Contains(s, t) {
+			seen[t] = true
 			h = append(h, t)
 		}
 	}
 	return h
+}
+
+// hb renders token hits as octet arrays (TLC compares them with request fields)
+func hb(h []string) [][]int {
+	out := [][]int{}
+	for _, t := range h {
+		out = append(out, S(t))
+	}
+	return out
 }
 
 func (l *CapLog) logf(kind string, format string, args ...interface{}) {
@@ -47,7 +58,7 @@ func (l *CapLog) logf(kind string, format string, args ...interface{}) {
 	if !l.on {
 		return
 	}
-	l.rec.Emit(E{"e": "log", "k": kind, "msg": msg, "hits": nz(l.hits(msg))})
+	l.rec.Emit(E{"e": "log", "k": kind, "msg": msg, "hits": hb(l.hits(msg))})
 }
 
 func nz(a []string) []string {
@@ -104,7 +115,7 @@ func (l *CapLog) Record(ctx context.Context, r map[string]string, obscure ...str
 			hits = append(hits, h...)
 		}
 	}
-	l.rec.Emit(E{"e": "log", "k": "record", "keys": shown, "obs": nz(obscure), "hitkeys": hitKeys, "hits": hits, "pt": r["packet-type"]})
+	l.rec.Emit(E{"e": "log", "k": "record", "keys": shown, "obs": nz(obscure), "hitkeys": hitKeys, "hits": hb(hits), "pt": r["packet-type"]})
 }
 
 // Set: context fields selected for retention.
@@ -125,7 +136,7 @@ func (l *CapLog) Set(ctx context.Context, fields map[string]string, keys ...tq.C
 				}
 			}
 		}
-		l.rec.Emit(E{"e": "log", "k": "set", "keys": ks, "hitkeys": hitKeys, "hits": hits})
+		l.rec.Emit(E{"e": "log", "k": "set", "keys": ks, "hitkeys": hitKeys, "hits": hb(hits)})
 	}
 	for _, k := range keys {
 		if v, ok := fields[string(k)]; ok {
